@@ -673,15 +673,16 @@ class VAMTransmissionManagement:
         ):
             self.send_next_vam(vam=vam_to_send)
             return
-        received_position = (tpv["lat"], tpv["lon"])
-        if (
-            Utils.euclidian_distance(
-                received_position, self.last_sent_position)
-            > vam_constants.MINREFERENCEPOINTPOSITIONCHANGETHRESHOLD
-        ):
-            self.send_next_vam(vam=vam_to_send)
-            return
-        if (
+        if "lat" in tpv and "lon" in tpv:
+            received_position = (tpv["lat"], tpv["lon"])
+            if (
+                Utils.euclidian_distance(
+                    received_position, self.last_sent_position)
+                > vam_constants.MINREFERENCEPOINTPOSITIONCHANGETHRESHOLD
+            ):
+                self.send_next_vam(vam=vam_to_send)
+                return
+        if "speed" in tpv and (
             abs(
                 tpv["speed"]
                 - self.last_vam_speed
